@@ -1,7 +1,7 @@
 \* Universe E (quick): one + or * application, then an optional assign and an Equation (lhs or rhs = the node built) for every comparison, hard and soft, epsilon 0, 1/4 and 1e-7.
 SPECIFICATION Spec
 CONSTANTS
-  Consts <- ConstsA
+  Consts <- ConstsH
   Scals <- ScalsH
   Vals <- ValsA
   Inits <- InitsA
@@ -14,7 +14,7 @@ CONSTANTS
   OpKinds = {"assign", "eq"}
   RehomeTargets = {}
   EqCmps = {"LE", "GE", "EQ"}
-  EqEps <- EpsA
+  EqEps <- EpsQ
   STACKUNDO = FALSE
   EMIT = FALSE
 INVARIANT InvShape
